@@ -82,8 +82,21 @@ func (c *C13) Init(w *World) {
 	}
 }
 
+// asciiFold lower-cases the 26 ASCII capitals and nothing else: "letter-case variants of chain names"
+// are spellings of the same letters; what Unicode lower-casing additionally folds onto ASCII letters
+// (KELVIN SIGN, dotted capital I) are other characters, not letter-case variants.
+func asciiFold(s string) string {
+	b := []byte(s)
+	for i, c := range b {
+		if c >= 'A' && c <= 'Z' {
+			b[i] = c + 'a' - 'A'
+		}
+	}
+	return string(b)
+}
+
 func chainAllowed(s *Snapshot, name string) bool {
-	ln := strings.ToLower(name)
+	ln := asciiFold(name)
 	for _, c := range s.BridgeChains {
 		if c.ChainName == ln {
 			return true
@@ -204,7 +217,7 @@ func (c *C13) AfterTx(w *World, t *TxCtx) {
 				continue
 			}
 			if !chainAllowed(pre, msg.OriginTx.Source) {
-				w.Violate("R2", "bridge-receive-from-disallowed-chain", "BridgeReceive from source %q accepted although %q is not on the allowed bridge chain list", msg.OriginTx.Source, strings.ToLower(msg.OriginTx.Source))
+				w.Violate("R2", "bridge-receive-from-disallowed-chain", "BridgeReceive from source %q accepted although %q is not on the allowed bridge chain list", msg.OriginTx.Source, asciiFold(msg.OriginTx.Source))
 				return
 			}
 			cl := pre.ClassByID(msg.ClassId)
@@ -256,17 +269,23 @@ func (c *C13) AfterTx(w *World, t *TxCtx) {
 			}
 		case *basetypes.MsgBridge:
 			if !chainAllowed(pre, msg.Target) {
-				w.Violate("R4", "bridge-to-disallowed-chain", "Bridge to target %q accepted although %q is not on the allowed bridge chain list", msg.Target, strings.ToLower(msg.Target))
+				w.Violate("R4", "bridge-to-disallowed-chain", "Bridge to target %q accepted although %q is not on the allowed bridge chain list", msg.Target, asciiFold(msg.Target))
 				return
 			}
 			per := map[uint64]*big.Rat{}
 			for j, cr := range msg.Credits {
 				b := pre.BatchByDenom(cr.BatchDenom)
 				if b == nil {
+					b = post.BatchByDenom(cr.BatchDenom) // created earlier in this tx
+				}
+				if b == nil {
 					w.Violate("R4", "bridge-of-unknown-batch", "Bridge credits[%d] names batch %q which does not exist", j, cr.BatchDenom)
 					return
 				}
 				bc := pre.ContractOf(b.Key)
+				if bc == nil && pre.BatchByKey(b.Key) == nil {
+					bc = post.ContractOf(b.Key) // batch and binding created earlier in this tx
+				}
 				if bc == nil {
 					w.Violate("R4", "bridge-of-batch-without-contract", "Bridge accepted for batch %s which has no bound contract", b.Denom)
 					return
